@@ -8,7 +8,7 @@
 EXTENDS Dispatch, Json, IOUtils, TLC
 
 Trace == ndJsonDeserialize(IOEnv.TRACE_FILE)
-VARIABLES l, mon
+VARIABLES l, mon, prevWhy
 Mis(line, clause, d) == PrintT("MISMATCH " \o ToJson([line |-> line, clause |-> clause, out |-> 0, variant |-> d]))
 Bump(k) == TLCSet(k, TLCGet(k) + 1)
 Chk(line, ok, clause, d) == IF ok THEN TRUE ELSE Mis(line, clause, d)
@@ -21,6 +21,10 @@ CheckEnd(line, ev) ==
       o  == ev.obs
   IN /\ Bump(2)
      /\ Chk(line, m2.ok, m2.why, <<>>)
+     \* the request after a panicking one must be served as it would have been otherwise
+     \* (judged against the verdict the same request got before: a request that is itself refused for
+     \* a recorded reason is refused for that reason again)
+     /\ Chk(line, ev.prevPanicked => (m2.ok \/ m2.why = prevWhy), "C10.usable", <<"follow-up request", m2.why>>)
      /\ IF mon.n >= 2 \/ (mon.n >= 1 /\ mon.passed # 1..mon.n) THEN Bump(3) ELSE TRUE
      /\ IF mon.panicked THEN Bump(5) ELSE TRUE
      /\ IF mon.recovered > 0 THEN Bump(6) ELSE TRUE
@@ -44,16 +48,17 @@ CheckEnd(line, ev) ==
         \* ... and a complete, decodable body: what the recover handler wrote arrives intact
         /\ Chk(line, mon.recovered = 1 => C07Payload(o), "C10.body", <<o.decodeOK, o.decodedEq, o.bodyEq>>)
 
-Init == l = 1 /\ mon = MonInit(0, FALSE, 1, 1)
+Init == l = 1 /\ mon = MonInit(0, FALSE, 1, 1) /\ prevWhy = ""
 Next == /\ l <= Len(Trace) /\ l' = l + 1
         /\ LET ev == Trace[l] IN
            /\ mon' = CASE ev.e = "dreq" -> MonInit(ev.n, ev.rec, 1, 1)
-                       [] ev.e = "dev"  -> Step(mon, Ev(ev.k, ev.f, ev.rq, ev.rs, SeqToSet(ev.at)))
+                       [] ev.e = "dev"  -> Step(mon, EvW(ev.k, ev.f, ev.rq, ev.rs, SeqToSet(ev.at), ev.who))
                        [] OTHER         -> mon
+           /\ prevWhy' = IF ev.e = "dend" THEN Step(mon, Ev("end", ev.esc, 0, 0, {})).why ELSE prevWhy
            /\ ev.e = "dev" => Bump(7)
            /\ ev.e = "dend" => CheckEnd(l, ev)
         /\ TLCSet(1, l)
-Spec == Init /\ [][Next]_<<l, mon>>
+Spec == Init /\ [][Next]_<<l, mon, prevWhy>>
 ASSUME \A k \in 1..8 : TLCSet(k, 0)
 AllConsumed ==
   /\ PrintT("COUNTERS " \o ToJson([k \in 2..8 |-> TLCGet(k)]))
